@@ -218,8 +218,10 @@ def execute(spec, ctx):
             # the pattern's terms arrive on every match: the term sets stay unchanged only if every match is a planted copy
             ctx.rng.reset(script)
             pre = findcheck.call_find(ctx, structure, search, atol, hints, with_quats=False)
-            copies = set(frozenset(p_["indices"]) for p_ in spec["planted"] if p_["kind"] == "copy")
-            if any(frozenset(int(i) for i in t) not in copies for t in pre):
+            # ... in the planted numbering (a tight periodic cell or an approximate symmetry can offer another valid numbering of
+            # the same atoms, on which the pattern's terms legitimately land elsewhere)
+            copies = set(tuple(p_["indices"]) for p_ in spec["planted"] if p_["kind"] == "copy")
+            if any(tuple(int(i) for i in t) not in copies for t in pre):
                 ctx.count("identity_with_terms_skipped_accidental_match")
                 return
         res, k = _call_replace(ctx, structure, search, replace, atol, script, hints, fraction=spec.get("fraction", 1.0))
